@@ -92,8 +92,10 @@ QR15 = _ring(15, (0, 7))
 # are written with equal value sequences (2, 100, 3, 2) but different keys
 QA4 = (QA[0], QA[1], {"a": 2, "b": 100, "c": 3, "d": 2})
 QA5 = (QA[0], QA[1], {"a": 2, "c": 100, "b": 3, "d": 2})
+# the network of A with every dimension doubled (same labels, costlier)
+QA6 = (QA[0], QA[1], {"a": 4, "b": 6, "c": 8, "d": 10})
 QS = {"A": QA, "B": QB, "C": QC, "A2": QA2, "A3": QA3, "R14": QR14,
-      "R15": QR15, "A4": QA4, "A5": QA5}
+      "R15": QR15, "A4": QA4, "A5": QA5, "A6": QA6}
 
 HK = dict(methods=["greedy"], max_repeats=1, optlib="random", parallel=False)
 
@@ -109,6 +111,11 @@ def tree_problems(tree, q, label):
                 tree.N != len(inputs):
             bad.append((label + ":tree-of-another-contraction",
                         tree.N, len(inputs)))
+        elif {k: int(v) for k, v in tree.size_dict.items()
+              if k in sd} != {k: int(v) for k, v in sd.items()}:
+            # same labels, other dimensions: still another contraction
+            bad.append((label + ":tree-of-another-contraction:sizes",
+                        dict(tree.size_dict), dict(sd)))
         elif not tree.is_complete() or len(tree.children) != tree.N - 1:
             bad.append((label + ":tree-incomplete",))
     except Exception as e:
@@ -255,6 +262,7 @@ def units(tier, seed):
     us = [("conc", i, tier, seed) for i in range(len(harnesses(tier)))]
     us += [("seq", k, tier, seed) for k in range(len(SEQ_KINDS))]
     us.append(("ident-reuse", 0, tier, seed))
+    us.append(("reentrant", 0, tier, seed))
     # free-running conformance of the scheduler's whitelist: the same harness
     # bodies on real, uncontrolled threads with a tiny switch interval (a
     # violation here that the exhaustive exploration does not show would mean
@@ -262,6 +270,70 @@ def units(tier, seed):
     us += [("freerun", i, tier, seed) for i, h in enumerate(harnesses(tier))
            if not h[0].endswith("-opcode")]
     return us
+
+
+_NESTED = {}
+
+
+def work_reentrant(tier, seed, res):
+    """one thread, re-entrant use: while a shared Reusable optimizer is
+    searching query X, a trial (as the library's own partition methods do
+    with their sub-optimizers) asks the SAME optimizer about another
+    contraction Y.  Both answers must be about what was asked."""
+    import importlib
+
+    import cotengra as ctg
+
+    hy = importlib.import_module("cotengra.hyperoptimizers.hyper")
+    pb = importlib.import_module("cotengra.pathfinders.path_basic")
+
+    def nested_fn(inputs, output, size_dict, **kw):
+        inner = _NESTED.get("query")
+        if inner is not None and tuple(inputs) != tuple(inner[0]):
+            t = _NESTED["opt"].search(*inner)
+            _NESTED["inner_results"].append(t)
+        path = pb.optimize_greedy(inputs, output, size_dict)
+        return ctg.ContractionTree.from_path(inputs, output, size_dict,
+                                             path=path)
+
+    if "verif-nested" not in hy._PATH_FNS:
+        hy.register_hyper_function("verif-nested", nested_fn, {})
+    for outer, inner in itertools.permutations(("A", "B", "C", "A3"), 2):
+        for kind in ("mem", "disk"):
+            root = tempfile.mkdtemp(prefix="verif-c16n-")
+            try:
+                opt = ctg.ReusableHyperOptimizer(
+                    methods=["verif-nested"], max_repeats=2, optlib="random",
+                    parallel=False,
+                    directory=root if kind == "disk" else None)
+                _NESTED.update(opt=opt, query=QS[inner], inner_results=[])
+                res.evals += 1
+                res.transitions += 2
+                res.key(("reentrant", outer, inner, kind))
+                bad = []
+                try:
+                    t = opt.search(*QS[outer])
+                    bad += tree_problems(t, QS[outer], f"outer:{outer}")
+                    for ti in _NESTED["inner_results"]:
+                        bad += tree_problems(ti, QS[inner],
+                                             f"nested:{inner}")
+                    # and afterwards both are answered from the cache
+                    bad += tree_problems(opt.search(*QS[outer]), QS[outer],
+                                         f"after:{outer}")
+                    bad += tree_problems(opt.search(*QS[inner]), QS[inner],
+                                         f"after:{inner}")
+                except Exception as e:
+                    bad.append(("reentrant:raises:" + type(e).__name__,
+                                repr(e)[:200]))
+                if bad:
+                    res.violation(
+                        "reentrant:" + bad[0][0].split(":", 2)[-1],
+                        {"kind": "reentrant", "outer": outer, "inner": inner,
+                         "store": kind}, bad[:3], max_per_unit=2)
+            finally:
+                _NESTED.clear()
+                shutil.rmtree(root, ignore_errors=True)
+    res.sample({"kind": "reentrant", "pairs": 12}, cap=1)
 
 
 def work_freerun(idx, tier, seed, res):
@@ -407,7 +479,7 @@ def work_seq(k, tier, seed, res):
         par._verif_orig_get_pool = par.get_pool
         par.get_pool = lambda *a, **kw: None
     try:
-        names = ["A", "A2", "A3", "B", "C"]
+        names = ["A", "A2", "A3", "B", "C", "A6"]
         for L in (1, 2, 3):
             for seq in itertools.product(names, repeat=L):
                 for entry in ("search", "call", "interface-tree",
@@ -551,6 +623,8 @@ def work(unit):
         work_seq(idx, tier, seed, res)
     elif kind == "freerun":
         work_freerun(idx, tier, seed, res)
+    elif kind == "reentrant":
+        work_reentrant(tier, seed, res)
     else:
         work_ident(tier, seed, res)
     return res
